@@ -396,8 +396,7 @@ func (x *c06Run) issue(op c06Op) (ok bool) {
 			}
 		}
 		if err := n.DelCtx(context.Background(), keys...); err != nil {
-			x.violate("C06:retry:del-returned-error", "node.DelCtx(%v) returned %v", keys, err)
-			return true
+			x.stats["del_returned_error"]++ // not claimed either way by the statement: counted only
 		}
 	case "cluster":
 		var conf Config
@@ -438,8 +437,7 @@ func (x *c06Run) issue(op c06Op) (ok bool) {
 			x.stats[fmt.Sprintf("cluster_keys_on_node%d", i)] += int64(len(ks))
 		}
 		if err := c.DelCtx(context.Background(), keys...); err != nil {
-			x.violate("C06:retry:del-returned-error", "cluster.DelCtx(%v) returned %v", keys, err)
-			return true
+			x.stats["del_returned_error"]++
 		}
 	}
 	// foreground observations
